@@ -36,6 +36,7 @@ fn explain(error_reference: &str) -> String {
         "symbolic_permission_level" => "Found invalid symbolic permission level",
         "symbolic_permission_symbol" => "Enountered an invalid permission symbol",
         "unsigned_integer" => "Expected an unsigned integer",
+        "unsupported_option" => "This option is not supported by LiPE",
         "string" => "Expected a string",
         unknown => unknown,
     }
